@@ -37,12 +37,20 @@ def build(u):
     table = list(u4.WORLD_CALLEES) + ['. ' + n for n in sorted(world_fns)] + sorted(world_fns)
     u.inline_new_helpers(table)
     u4.thread_all(u)
+    # calls of the cache operations on any receiver inside readonly.rs / stack.rs (every receiver there is a cache level)
+    for v in u.fns:
+        if v.relpath in ('src/stack.rs', 'src/readonly.rs') and any(
+                ch.text.strip().endswith('Tracked(w): Tracked<&mut World>') for ch in v.chunks if v.ct[v.lo][2] <= ch.pos <= v.ct[v.hi][3]):
+            v.thread(['. get', '. touch', '. set', '. put', '. temp_dir'])
     n16 = 0
     for v in u.fns:
         if v.item.body_range():
             n16 += v.name_closure_wildcards()
     if n16:
         u.dropped.append('T16: %d closure head(s) `|_|` spelled `|kv_unused|`' % n16)
+    for v in u.fns:
+        if v.item.body_range():
+            v.static_str_consts()
     n17 = 0
     for v in u.fns:
         if v.item.body_range():
@@ -68,7 +76,7 @@ def level_get_ensures(lookup, configured):
         ('C13 C11 C01 C19:a-hit-is-a-read-only-handle-at-offset-zero-on-the-copy-this-level-holds',
          'r.is_ok() && r.unwrap().is_some() ==> %s == Some(r.unwrap().unwrap().ino()) && !r.unwrap().unwrap().can_write() && r.unwrap().unwrap().offset() == 0' % lookup),
         ('C13 C11 C05 C18:a-miss-means-this-level-holds-no-copy', 'r.is_ok() && r.unwrap().is_none() ==> %s.is_none()' % lookup),
-        ('C18 C05:error-is-an-invalid-name-or-a-real-fault',
+        ('C18 C05 C06:error-is-an-invalid-name-or-a-real-fault',
          'r.is_err() ==> err_kind(err_of(r)) == ErrorKind::InvalidInput || final(w).hard_faults > old(w).hard_faults'),
         ('C06 C20:at-most-two-opens-per-level', 'final(w).steps <= old(w).steps + 2 * (6) && final(w).opens <= old(w).opens + 2'),
     ]
@@ -85,7 +93,7 @@ def level_touch_ensures(lookup):
         ('C13 C09:true-means-this-level-holds-a-copy-now-marked-as-read',
          'r == Ok::<bool, Error>(true) ==> %s.is_some() && final(w).inodes[%s.unwrap()].atime >= final(w).inodes[%s.unwrap()].mtime' % (lookup, lookup, lookup)),
         ('C13 C05 C18:false-means-this-level-holds-no-copy', 'r == Ok::<bool, Error>(false) ==> %s.is_none()' % lookup),
-        ('C18 C05:error-is-an-invalid-name-or-a-real-fault',
+        ('C18 C05 C06:error-is-an-invalid-name-or-a-real-fault',
          'r.is_err() ==> err_kind(err_of(r)) == ErrorKind::InvalidInput || final(w).hard_faults > old(w).hard_faults'),
         ('C06 C20:at-most-two-calls-per-level', 'final(w).steps <= old(w).steps + 2 * (2) && final(w).opens == old(w).opens'),
     ]
@@ -218,7 +226,7 @@ impl ReadOnlyCache {
             ('C01:a-hit-holds-bytes-some-writer-supplied-for-exactly-this-key',
              'r.is_ok() && r.unwrap().is_some() && levels_configured(%s, old(w).cfg()) ==> final(w).inodes.contains_key(r.unwrap().unwrap().ino()) '
              '&& final(w).supplied.contains((str_bytes(key.name), final(w).inodes[r.unwrap().unwrap().ino()].content))' % stack),
-            ('C18 C05 C14:error-is-an-invalid-name-a-real-fault-or-a-rejected-copy',
+            ('C18 C05 C14 C06:error-is-an-invalid-name-a-real-fault-or-a-rejected-copy',
              'r.is_err() ==> %s || final(w).hard_faults > old(w).hard_faults || (%s.is_some() && exists|i: int, j: int| 0 <= i < j < %s.len() '
              '&& (#[trigger] %s[i]).lookup(old(w).files, key).is_some() && (#[trigger] %s[j]).lookup(old(w).files, key).is_some() '
              '&& !checker_accepts(%s.unwrap(), %s[i].lookup(old(w).files, key).unwrap(), %s[j].lookup(old(w).files, key).unwrap()))' % (REJ, checker, stack, stack, stack, checker, stack, stack)),
@@ -283,7 +291,7 @@ impl ReadOnlyCache {
              '&& forall|j: int| 0 <= j < idx ==> (#[trigger] %s[j]).lookup(old(w).files, key).is_none()' % (stack, stack, stack, stack, stack)),
             ('C13 C05 C18:false-means-no-level-holds-a-copy',
              'r == Ok::<bool, Error>(false) ==> forall|j: int| 0 <= j < %s.len() ==> (#[trigger] %s[j]).lookup(old(w).files, key).is_none()' % (stack, stack)),
-            ('C18 C05:error-is-an-invalid-name-or-a-real-fault', 'r.is_err() ==> %s || final(w).hard_faults > old(w).hard_faults' % REJ),
+            ('C18 C05 C06:error-is-an-invalid-name-or-a-real-fault', 'r.is_err() ==> %s || final(w).hard_faults > old(w).hard_faults' % REJ),
             ('C06 C20:at-most-two-calls-per-level', 'final(w).steps <= old(w).steps + 2 * (2 * %s.len()) && final(w).opens == old(w).opens' % stack),
         ]
 
@@ -369,14 +377,14 @@ def weave_stack(u, u4):
         ('C02 C13:asking-for-a-temp-dir-changes-no-lookup', 'forall|k: Key| #[trigger] self.lookup(final(w).files, k) == self.lookup(old(w).files, k)'),
         ('C02 C13 C01:files-inside-the-temp-dir-are-invisible-to-lookups',
          'r.is_ok() ==> forall|links: Map<PathV, InodeId>, n: Seq<u8>, i: InodeId, k: Key| #[trigger] self.lookup(links.insert(child(cowv(r.unwrap()), n), i), k) == self.lookup(links, k)'),
-        ('C02 C16:the-temp-dir-is-a-kismet-temp-directory-outside-every-read-only-root',
+        ('C02 C16 C15:the-temp-dir-is-a-kismet-temp-directory-outside-every-read-only-root',
          'r.is_ok() ==> final(w).is_temp_dir(cowv(r.unwrap())) && !final(w).under_ro(cowv(r.unwrap())) && forall|n: Seq<u8>| !final(w).under_ro(#[trigger] child(cowv(r.unwrap()), n))'),
     ]
     td.contract(requires=[('', 'old(w).inv() && self.level_wf() && self.rw(old(w).cfg())')], ensures=TEMP_ENS)
 
     def write_ens(op='set'):
         return [
-            ('C18 C05:without-a-real-fault-a-failed-write-published-nothing', 'r.is_err() && final(w).hard_faults == old(w).hard_faults ==> final(w).published == old(w).published'),
+            ('C18 C05 C06:without-a-real-fault-a-failed-write-published-nothing', 'r.is_err() && final(w).hard_faults == old(w).hard_faults ==> final(w).published == old(w).published'),
             ('C01 C03 C19:a-write-never-changes-the-bytes-of-any-file',
              'bytes_kept(*old(w), *final(w))'),
             ('C13 C11 C18:success-means-a-publication-happened' + ('' if op == 'set' else '-unless-the-key-was-already-bound'),
@@ -388,7 +396,7 @@ def weave_stack(u, u4):
              '%s ==> r.is_err() && err_kind(err_of(r)) == ErrorKind::InvalidInput && final(w).same_fs(*old(w)) && final(w).counter == old(w).counter && final(w).published == old(w).published' % BAD),
             ('C11 C18:success-consumes-the-source', 'r.is_ok() ==> old(w).files.contains_key(pv(value)) && !final(w).files.contains_key(pv(value))'),
             ('C15 C16 C17 C12:everything-that-changes-is-inside-this-cache', 'self.wrote(*old(w), *final(w), key, pv(value))'),
-            ('C18 C05:error-is-explained', 'r.is_err() ==> %s || final(w).hard_faults > old(w).hard_faults || !final(w).files.contains_key(pv(value))' % REJ),
+            ('C18 C05 C06:error-is-explained', 'r.is_err() ==> %s || final(w).hard_faults > old(w).hard_faults || !final(w).files.contains_key(pv(value))' % REJ),
         ]
     for op in ('set', 'put'):
         m = t.sub(['fn ' + op])
@@ -581,7 +589,7 @@ pub open spec fn read_copies_accepted(rs: ReadOnlyCache, links: Map<PathV, Inode
                  '&& final(w).inodes[%s.lookup(old(w).files, key).unwrap()].atime >= final(w).inodes[%s.lookup(old(w).files, key).unwrap()].mtime' % (wopt, ws, ws, ws)),
                 ('C13 C05 C18:false-means-no-copy-anywhere',
                  'r == Ok::<bool, Error>(false) ==> no_read_copy(%s, old(w).files, key) && (%s.is_some() ==> %s.lookup(old(w).files, key).is_none())' % (rs, wopt, ws)),
-                ('C18 C05:error-is-an-invalid-name-or-a-real-fault', 'r.is_err() ==> %s || final(w).hard_faults > old(w).hard_faults' % REJ),
+                ('C18 C05 C06:error-is-an-invalid-name-or-a-real-fault', 'r.is_err() ==> %s || final(w).hard_faults > old(w).hard_faults' % REJ),
             ])
 
     ts = u.under_contract(imp.sub(['fn touch']), API_PROPS)
@@ -664,14 +672,14 @@ pub open spec fn read_copies_accepted(rs: ReadOnlyCache, links: Map<PathV, Inode
                           'final(w).files == old(w).files && final(w).dirs == old(w).dirs && forall|i: InodeId| old(w).inodes.contains_key(i) ==> final(w).inodes.contains_key(i) && '
                           '#[trigger] final(w).inodes[i] == (Inode { atime: final(w).inodes[i].atime, synced: final(w).inodes[i].synced, ..old(w).inodes[i] }) '
                           '&& (old(w).inodes[i].synced ==> final(w).inodes[i].synced)'),
-                         ('C18 C05:error-is-an-absent-path-or-a-real-fault', 'r.is_err() ==> final(w).hard_faults > old(w).hard_faults || !old(w).files.contains_key(pv(path))'),
+                         ('C18 C05 C06:error-is-an-absent-path-or-a-real-fault', 'r.is_err() ==> final(w).hard_faults > old(w).hard_faults || !old(w).files.contains_key(pv(path))'),
                          ('C06 C20:at-most-two-filesystem-calls', 'final(w).steps <= old(w).steps + 2 * (2) && final(w).opens <= old(w).opens + 1')])
     WS = 'self.writer().unwrap()'
     BADK = '(!first_byte_ok(str_bytes(key.name)) || str_bytes(key.name).contains(0x2fu8))'
 
     def impl_ens(ws, op='set'):
         return [
-            ('C18 C05:without-a-real-fault-a-failed-write-published-nothing', 'r.is_err() && final(w).hard_faults == old(w).hard_faults ==> final(w).published == old(w).published'),
+            ('C18 C05 C06:without-a-real-fault-a-failed-write-published-nothing', 'r.is_err() && final(w).hard_faults == old(w).hard_faults ==> final(w).published == old(w).published'),
             ('C01 C03 C19:a-write-never-changes-the-bytes-of-any-file',
              'bytes_kept(*old(w), *final(w))'),
             ('C13 C11 C18:success-means-a-publication-happened' + ('' if op == 'set' else '-unless-the-key-was-already-bound'),
@@ -687,7 +695,7 @@ pub open spec fn read_copies_accepted(rs: ReadOnlyCache, links: Map<PathV, Inode
             ('C11 C18:success-consumes-the-source', 'r.is_ok() ==> old(w).files.contains_key(pv(value)) && !final(w).files.contains_key(pv(value))'),
             ('C15 C16 C17 C12:everything-that-changes-is-inside-the-write-cache',
              '%s.is_some() ==> %s.wrote(*old(w), *final(w), key, pv(value))' % (ws.replace('.unwrap()', ''), ws)),
-            ('C18 C05:error-is-explained',
+            ('C18 C05 C06:error-is-explained',
              'r.is_err() ==> %s.is_none() || %s || final(w).hard_faults > old(w).hard_faults || !final(w).files.contains_key(pv(value))' % (ws.replace('.unwrap()', ''), REJ)),
         ]
 
@@ -720,7 +728,7 @@ pub open spec fn read_copies_accepted(rs: ReadOnlyCache, links: Map<PathV, Inode
                  'r.is_ok() ==> final(w).published > old(w).published' + ('' if op.startswith('set') else ' || %s.lookup(old(w).files, key).is_some()' % TW_)),
                 ] + ([] if op.startswith('set') else [('C11 C04:put-never-overwrites-an-existing-entry',
                                                       'r.is_ok() && final(w).hard_faults == old(w).hard_faults && final(w).listed == old(w).listed && %s.writer().is_some() && %s.lookup(old(w).files, key).is_some() ==> final(w).published == old(w).published' % (this, TW_))]) + [
-                ('C18 C05:error-is-explained',
+                ('C18 C05 C06:error-is-explained',
                  'r.is_err() ==> %s.writer().is_none() || %s || final(w).hard_faults > old(w).hard_faults || !final(w).files.contains_key(%s) || !old(w).files.contains_key(%s)' % (this, REJ, VAL, VAL)),
             ]
             return dict(requires=req, ensures=ens)
@@ -905,7 +913,7 @@ pub fn opt_arc_as_ref<T: ?Sized>(o: &Option<Arc<T>>) -> (r: Option<&T>)
             ('C13 C19 C01:the-hit-itself-is-returned-rewound', 'r.is_ok() ==> r.unwrap().ino() == file.ino() && r.unwrap().can_write() == file.can_write() && r.unwrap().offset() == 0'),
             ('C13 C11 C18:an-identical-copy-is-published-in-the-write-cache-unless-the-key-was-already-bound',
              'r.is_ok() ==> final(w).published > old(w).published || cache.lookup(old(w).files, key).is_some()'),
-            ('C18 C05:without-a-real-fault-a-failed-promotion-published-nothing', 'r.is_err() && final(w).hard_faults == old(w).hard_faults ==> final(w).published == old(w).published'),
+            ('C18 C05 C06:without-a-real-fault-a-failed-promotion-published-nothing', 'r.is_err() && final(w).hard_faults == old(w).hard_faults ==> final(w).published == old(w).published'),
             ('C01 C15:the-hit-keeps-its-bytes', 'final(w).inodes.contains_key(file.ino()) && final(w).inodes[file.ino()].content == old(w).inodes[file.ino()].content'),
         ])
     pr.insert_after_stmt('let mut tmp = NamedTempFile :: new_in',
@@ -955,7 +963,7 @@ pub fn opt_arc_as_ref<T: ?Sized>(o: &Option<Arc<T>>) -> (r: Option<&T>)
             ('C13 C14:otherwise-the-first-read-only-copy-is-judged-secondary-and-the-action-applied',
              'r.is_ok() && !%s && !no_read_copy(%s, old(w).files, key) ==> exists|h: CacheHit, a: CacheHitAction, idx: int| #[trigger] call_ensures(judge, (h,), a) && h is Secondary '
              '&& #[trigger] first_copy(%s.levels(), old(w).files, key, idx, hit_file(h).ino()) && hit_outcome(self, *old(w), *final(w), false, hit_file(h).ino(), a, r.unwrap())' % (WHIT, RS, RS)),
-            ('C05 C18 C13:once-the-value-is-published-the-call-succeeds-unless-a-real-fault-follows',
+            ('C05 C18 C13 C06:once-the-value-is-published-the-call-succeeds-unless-a-real-fault-follows',
              'r.is_err() ==> final(w).published == old(w).published || final(w).hard_faults > old(w).hard_faults'),
             ('C13 C18:a-miss-is-populated-and-stored-in-the-write-cache-or-served-from-a-throw-away-file',
              'r.is_ok() && !%s && no_read_copy(%s, old(w).files, key) ==> if self.writer().is_some() { final(w).published > old(w).published } else { '
@@ -1014,7 +1022,7 @@ pub fn opt_arc_as_ref<T: ?Sized>(o: &Option<Arc<T>>) -> (r: Option<&T>)
              'r.is_ok() && !%s && !no_read_copy(%s, old(w).files, key) ==> (exists|idx: int| #[trigger] first_copy(%s.levels(), old(w).files, key, idx, r.unwrap().ino())) '
              '&& (self.writer().is_some() ==> final(w).published > old(w).published)' % (WHIT, RS, RS)),
             ('C13:ensure-populates-and-stores-a-missing-value', 'r.is_ok() && !%s && no_read_copy(%s, old(w).files, key) && self.writer().is_some() ==> final(w).published > old(w).published' % (WHIT, RS)),
-            ('C05 C18 C13:once-the-value-is-published-the-call-succeeds-unless-a-real-fault-follows',
+            ('C05 C18 C13 C06:once-the-value-is-published-the-call-succeeds-unless-a-real-fault-follows',
              'r.is_err() ==> final(w).published == old(w).published || final(w).hard_faults > old(w).hard_faults'),
         ])
     jd = en.sub(['fn ' + jname])
